@@ -115,7 +115,7 @@ func runCase(p *Property, c *Ctx) (f *failure) {
 }
 
 func recordOf(c *Ctx, idx int, f *failure) *Record {
-	rec := &Record{Prop: c.Prop, Seed: c.Seed, Index: idx, Gen: append([]int(nil), c.gen...), Params: map[string]int{}, Sched: map[string][]int{}}
+	rec := &Record{Prop: c.Prop, Seed: c.Seed, Index: idx, Gen: append([]int(nil), c.gen...), Params: map[string]int{}, Sched: map[string][]int{}, GoMaxProcs: runtime.GOMAXPROCS(0)}
 	for k, v := range c.ParamsOut {
 		rec.Params[k] = v
 	}
